@@ -368,3 +368,58 @@ def runOp (S : Suite F E) (op : String) (a : Args) : String :=
   r.getD "bad-op"
 
 end Frost.Driver
+
+namespace Frost.Driver
+open Frost
+
+variable {F E : Type}
+variable [Add F] [Mul F] [Sub F] [Neg F] [Zero F] [One F] [Inv F] [DecidableEq F]
+variable [Add E] [Sub E] [Neg E] [Zero E] [SMul F E] [DecidableEq E]
+
+def pRoot (s : String) : Option (Option Bytes) :=
+  if s = "none" then some none else (parseHex s).map some
+
+/-- the Taproot-only entry points (`sign_with_tweak`, `aggregate_with_tweak`, `Tweak`, `EvenY`) -/
+def runTrOp (B : Base F E) (P : TrParams F E) (op : String) (a : Args) : String :=
+  let S := Suite.taproot B P
+  let C : Codec F E := Codec.ofBase B
+  let lt := B.idLt
+  let comms := fun (k : String) => (arg a k (pRecs (pComm C))).map (SMap.ofList lt)
+  let r : Option String :=
+    match op with
+    | "tr_sign" => do
+      let msg ← arg a "msg" parseHex
+      let cs ← comms "comms"
+      let nonces ← arg a "nonces" (pNonces C)
+      let kp ← arg a "kp" (pKp C)
+      let root ← arg a "root" pRoot
+      pure (fmtOut C (fun z => "z=" ++ C.sS z) (signWithTweak B P ⟨cs, msg⟩ nonces kp root))
+    | "tr_aggregate" => do
+      let msg ← arg a "msg" parseHex
+      let cs ← comms "comms"
+      let shares ← arg a "shares" (pRecs (pFF C))
+      let pkp ← arg a "pkp" (pPkp C)
+      let root ← arg a "root" pRoot
+      pure (fmtOut C (fun sig => "sig=" ++ fmtSig C sig)
+        (aggregateWithTweak B P ⟨cs, msg⟩ (SMap.ofList lt shares)
+          { pkp with vshares := SMap.ofList lt pkp.vshares } root))
+    | "tr_tweak_kp" => do
+      let kp ← arg a "kp" (pKp C)
+      let root ← arg a "root" pRoot
+      pure ("ok kp=" ++ fmtKp C (P.tweakKp B.G kp root))
+    | "tr_tweak_pkp" => do
+      let pkp ← arg a "pkp" (pPkp C)
+      let root ← arg a "root" pRoot
+      pure ("ok pkp=" ++ fmtPkp C (P.tweakPkp B.G { pkp with vshares := SMap.ofList lt pkp.vshares } root))
+    | "tr_even_kp" => do
+      let kp ← arg a "kp" (pKp C)
+      pure ("ok kp=" ++ fmtKp C (P.evenKp kp))
+    | "tr_even_pkp" => do
+      let pkp ← arg a "pkp" (pPkp C)
+      pure ("ok pkp=" ++ fmtPkp C (P.evenPkp { pkp with vshares := SMap.ofList lt pkp.vshares }))
+    | _ => (none : Option String)
+  match r with
+  | some s => s
+  | none => runOp S op a
+
+end Frost.Driver
